@@ -35,13 +35,18 @@ pub struct FlexSource<'a> {
     pub reqs: u64,
     fail_at: Option<u64>,
     rng: u64,
+    /// octets beyond the grant that `slice()` shows anyway ("it may be longer if more data is available")
+    ahead: usize,
 }
 
 impl<'a> FlexSource<'a> {
     pub fn new(data: &'a [u8], policy: Policy, fail_at: Option<u64>) -> Self {
         let rng = match policy { Policy::Random(s) => s | 1, _ => 1 };
-        FlexSource { data, pos: 0, granted: 0, policy, reqs: 0, fail_at, rng }
+        FlexSource { data, pos: 0, granted: 0, policy, reqs: 0, fail_at, rng, ahead: 0 }
     }
+    /// A read-ahead source: `slice()` shows up to `ahead` octets more than was granted; taking them
+    /// (bytes/advance) without a request is still a contract violation.
+    pub fn read_ahead(data: &'a [u8], policy: Policy, ahead: usize) -> Self { let mut s = Self::new(data, policy, None); s.ahead = ahead; s }
     pub fn left(&self) -> usize { self.data.len() - self.pos }
 }
 
@@ -67,7 +72,7 @@ impl<'a> Source for FlexSource<'a> {
         self.granted = self.granted.max(g);
         Ok(self.granted)
     }
-    fn slice(&self) -> &[u8] { &self.data[self.pos..self.pos + self.granted] }
+    fn slice(&self) -> &[u8] { &self.data[self.pos..(self.pos + self.granted + self.ahead).min(self.data.len())] }
     fn bytes(&self, start: usize, end: usize) -> Bytes {
         assert!(start <= end && end <= self.granted, "bytes() beyond what request() granted");
         Bytes::copy_from_slice(&self.data[self.pos + start..self.pos + end])
